@@ -192,6 +192,28 @@ pub fn r_fed_media_thumbnail(b: &[u8]) -> R {
     response::<ruma_federation_api::authenticated_media::get_content_thumbnail::v1::Response>(b)
 }
 
+pub fn r_store_invitation_response(b: &[u8]) -> R {
+    response::<ruma_identity_service_api::invitation::store_invitation::v2::Response>(b)
+}
+pub fn r_lookup_3pid_response(b: &[u8]) -> R {
+    response::<ruma_identity_service_api::lookup::lookup_3pid::v2::Response>(b)
+}
+pub fn r_get_missing_events_response(b: &[u8]) -> R {
+    response::<ruma_federation_api::event::get_missing_events::v1::Response>(b)
+}
+pub fn r_send_transaction_response(b: &[u8]) -> R {
+    response::<ruma_federation_api::transactions::send_transaction_message::v1::Response>(b)
+}
+pub fn r_create_join_response(b: &[u8]) -> R {
+    response::<ruma_federation_api::membership::create_join_event::v2::Response>(b)
+}
+pub fn r_get_pushrules_response(b: &[u8]) -> R {
+    response::<ruma_client_api::push::get_pushrules_all::v3::Response>(b)
+}
+pub fn r_get_state_response(b: &[u8]) -> R {
+    response::<ruma_client_api::state::get_state_events::v3::Response>(b)
+}
+
 pub fn r_get_content_response(b: &[u8]) -> R {
     response::<ruma_client_api::authenticated_media::get_content::v1::Response>(b)
 }
